@@ -519,7 +519,7 @@ namespace ip {
 				p.overhead = 40;
 				p.hops = hops;
 				p.seq_nr = m_next_outgoing_seq++;
-				p.drop_fun = std::bind(&tcp::socket::packet_dropped, this, _1);
+				p.drop_fun = make_drop_fun();
 
 				send_packet(std::move(p));
 				ptr += packet_size;
@@ -757,6 +757,18 @@ namespace ip {
 		forward_packet(std::move(p));
 	}
 
+	aux::function<void(aux::packet)> tcp::socket::make_drop_fun() const
+	{
+		// a segment may still be in a queue when its socket is closed,
+		// destroyed or moved
+		std::shared_ptr<aux::sink_forwarder> fwd = m_forwarder;
+		return [fwd](aux::packet p)
+		{
+			tcp::socket* self = fwd ? static_cast<tcp::socket*>(fwd->dst()) : nullptr;
+			if (self) self->packet_dropped(std::move(p));
+		};
+	}
+
 	void tcp::socket::packet_dropped(aux::packet p)
 	{
 		// the socket may have been closed (or have read EOF) since the segment
@@ -775,7 +787,7 @@ namespace ip {
 			m_outstanding_packet_sizes.erase(it);
 		}
 		// the hop that dropped the segment consumed its drop callback
-		p.drop_fun = std::bind(&tcp::socket::packet_dropped, this, _1);
+		p.drop_fun = make_drop_fun();
 		m_outgoing_packets.push_back(std::move(p));
 
 		const int packets_in_cwnd = m_cwnd / m_mss;
